@@ -1,11 +1,14 @@
 (** C19 — Stored results come back exactly, and queries mean what they say.
-    Statements only; proofs are in Proofs/Words.v and Proofs/Query.v.
-    Trusted, not modelled: SQLite's evaluation of the generated SQL (joins,
-    BINARY collation = bytewise comparison of TEXT); the per-part WHERE clauses
-    are modelled by [Query.sql_value_cond] / [Query.part_selects] and tied to
-    the implementation by the correspondence run only. *)
-From Perf Require Import Base.Bytes Model.Words Model.Query Model.StoreFmt Proofs.Words Proofs.Query
-     Proofs.StoreFmt Proofs.QueryDb.
+    Statements only; proofs are in Proofs/Words.v, Query.v, QueryDb.v,
+    StoreFmt.v, ReaderKeys.v, ReaderWf.v, SqlLists.v, Sql.v, SqlDb.v.
+    The generated SQL is modelled relationally (Model/Sql.v: the sub-selects of
+    part.sql, INNER JOIN ... USING, LEFT JOIN Records, GROUP BY/COUNT, ORDER BY,
+    LIMIT, the INSERTs under the PRIMARY/FOREIGN KEYs, TEXT compared bytewise =
+    BINARY collation) and proved to mean [Query.query_selects]; what remains
+    trusted is that SQLite implements these relational operators. *)
+From Coq Require Import Permutation Sorted.
+From Perf Require Import Base.Bytes Model.Words Model.Query Model.StoreFmt Model.Sql Proofs.Words Proofs.Query
+     Proofs.StoreFmt Proofs.QueryDb Proofs.ReaderKeys Proofs.ReaderWf Proofs.SqlLists Proofs.Sql Proofs.SqlDb.
 
 (** several terms on one key, merged left to right as parseQuery does, mean
     their conjunction — on every non-empty label value (None = io.EOF = never) *)
@@ -109,6 +112,48 @@ Theorem C19_stored_to_client : forall groups : list (list result),
 Proof. exact stored_to_client. Qed.
 Print Assumptions C19_stored_to_client.
 
+(** *** what the Reader itself produces is accepted again *)
+
+(** every key parseKeyValueLine returns is a key its scanner stops at in front
+    of ANY continuation ([key_ok]) — for all byte strings, valid UTF-8 or not:
+    the byte after the key is ':' , never a continuation byte, so no rune
+    straddles the end of the key *)
+Theorem C19_parse_kv_line_key_ok : forall line k v,
+  parse_kv_line line = Some (k, v) -> key_ok k.
+Proof. exact parse_kv_line_key_ok. Qed.
+Print Assumptions C19_parse_kv_line_key_ok.
+
+(** every label key of every result the Reader returns for ANY text is accepted
+    by the key scanner: the hypothesis [key_ok] of the round trip holds of
+    everything read back from a stored record or a /search response *)
+Theorem C19_reader_keys_accepted : forall text r k v,
+  In r (read_plain text) -> In (k, v) (r_labels r) -> key_ok k.
+Proof. exact reader_keys_accepted. Qed.
+Print Assumptions C19_reader_keys_accepted.
+
+(** with AddLabels(meta) (indexing an upload): a key is one of the server's or accepted *)
+Theorem C19_reader_keys_accepted_with : forall meta text r k v,
+  In r (read_with meta text) -> In (k, v) (r_labels r) ->
+  (exists v', In (k, v') meta) \/ key_ok k.
+Proof. exact reader_keys_accepted_with. Qed.
+Print Assumptions C19_reader_keys_accepted_with.
+
+(** all of [wf_result] holds of what the Reader returns, except in the two
+    recorded cases: a value or line ending in CR (C19_trailing_cr_lost) and an
+    empty benchmark name (C19_empty_name_label_value) *)
+Theorem C19_reader_results_wf : forall text r,
+  In r (read_plain text) -> no_trailing_cr r -> named r -> wf_result r.
+Proof. exact reader_results_wf. Qed.
+Print Assumptions C19_reader_results_wf.
+
+(** read any text, print, read again: the same results *)
+Theorem C19_reread_roundtrip : forall text,
+  let rs := read_plain text in
+  Forall no_trailing_cr rs -> Forall named rs ->
+  Forall2 res_same (read_plain (print_all [] rs)) rs.
+Proof. exact reread_roundtrip. Qed.
+Print Assumptions C19_reread_roundtrip.
+
 (** ** queries over the stored state (stretch) *)
 
 (** parseQuery hands SQL one part per key, keys sorted *)
@@ -163,6 +208,185 @@ Theorem C19_listing_newest_first_limited : forall d ps limit,
   /\ Forall (fun ic => snd ic <> 0%N) l.
 Proof. exact listing_newest_first_limited. Qed.
 Print Assumptions C19_listing_newest_first_limited.
+
+(** ** the generated SQL, evaluated relationally *)
+
+(** over ANY tables satisfying the constraints createTmpl declares (the three
+    PRIMARY KEYs, the two FOREIGN KEYs): the statement DB.Query sends returns
+    the Content of exactly the Records rows [query_selects] selects — each once,
+    never NULL. A row's labels are read off RecordLabels ([labels_of]). *)
+Theorem C19_sql_query_is_query_selects : forall T, constraints T -> forall ps subs,
+  parts_sql ps = Some subs ->
+  Permutation (sql_query T subs)
+              (map (fun r => Some (rr_content r)) (filter (row_selected T ps) (t_records T))).
+Proof. exact sql_query_is_query_selects. Qed.
+Print Assumptions C19_sql_query_is_query_selects.
+
+(** ... and the statement DB.ListUploads sends returns, per Uploads row, the
+    number of its selected records, rows with none dropped, ordered by (Day,
+    Seq, UploadID) descending whatever the sorting algorithm, then limited *)
+Theorem C19_sql_list_is_counts : forall T, constraints T -> forall ps subs limit,
+  parts_sql ps = Some subs ->
+  sql_list_uploads T subs limit
+  = map (fun w => (lw_id w, lw_count w)) (sql_limit limit (sort_desc row_cmp (spec_rows T ps))).
+Proof. exact sql_list_is_counts. Qed.
+Print Assumptions C19_sql_list_is_counts.
+
+(** the storage invariant — upload IDs distinct, one label row per (record,
+    label name) — is kept by the insert model, given a new upload ID (C20) *)
+Theorem C19_storage_invariant_maintained : forall d u,
+  wf_store d -> ~ In (u_id u) (map s_id d) -> wf_store (fst (apply_upload d u)).
+Proof. exact apply_upload_keeps_wf_store. Qed.
+Print Assumptions C19_storage_invariant_maintained.
+
+Theorem C19_process_upload_keys_distinct : forall u recs,
+  process_upload u = inl recs -> Forall rec_keys_distinct recs.
+Proof. exact process_upload_keys_distinct. Qed.
+Print Assumptions C19_process_upload_keys_distinct.
+
+(** it makes the tables of the stored state satisfy the declared constraints *)
+Theorem C19_tables_constraints : forall d ms,
+  wf_store d -> length ms = length d -> constraints (tables_of d ms).
+Proof. exact tables_constraints. Qed.
+Print Assumptions C19_tables_constraints.
+
+(** the INSERTs (checked against the constraints) of an accepted upload succeed
+    and yield the tables of the extended state; a record carrying one label
+    name twice is refused by PRIMARY KEY (UploadID, RecordID, Name) — the
+    model's FLabelCollision; whatever is inserted, the constraints keep holding *)
+Theorem C19_store_upload_tables_of : forall d ms id day seq recs,
+  wf_store d -> length ms = length d -> ~ In id (map s_id d) -> Forall rec_keys_distinct recs ->
+  store_upload (tables_of d ms) id day seq recs
+  = Some (tables_of (d ++ [mkStored id recs]) (ms ++ [(day, seq)])).
+Proof. exact store_upload_tables_of. Qed.
+Print Assumptions C19_store_upload_tables_of.
+
+Theorem C19_store_upload_refuses_collision : forall T id day seq recs,
+  ~ Forall rec_keys_distinct recs -> store_upload T id day seq recs = None.
+Proof. exact store_upload_refuses_collision. Qed.
+Print Assumptions C19_store_upload_refuses_collision.
+
+Theorem C19_process_upload_collision : forall u,
+  process_upload u = inr FLabelCollision ->
+  exists recs, ~ Forall rec_keys_distinct recs
+    /\ exists st, index_files u 0 (u_files u) ins0 = inl st /\ recs = rev (i_recs st).
+Proof. exact process_upload_collision. Qed.
+Print Assumptions C19_process_upload_collision.
+
+Theorem C19_store_upload_constraints : forall T id day seq recs T',
+  constraints T -> store_upload T id day seq recs = Some T' -> constraints T'.
+Proof. exact store_upload_constraints. Qed.
+Print Assumptions C19_store_upload_constraints.
+
+Theorem C19_store_history_tables_of : forall d ms,
+  wf_store d -> length ms = length d ->
+  store_history (mkT [] [] []) (combine d ms) = Some (tables_of d ms).
+Proof. exact store_history_tables_of. Qed.
+Print Assumptions C19_store_history_tables_of.
+
+(** THE THEOREM asked for: the SQL of DB.Query — per key a sub-select over
+    RecordLabels filtered by the part's bytewise comparison (over Records for
+    the key "upload"), INNER JOINed on (UploadID, RecordID), LEFT JOINed with
+    Records — evaluated relationally over the tables the inserts built returns
+    exactly the stored records [query_selects] selects, each once *)
+Theorem C19_sql_semantics_is_query_selects : forall d ms ps subs,
+  wf_store d -> length ms = length d -> parts_sql ps = Some subs ->
+  Permutation (sql_query (tables_of d ms) subs)
+    (map (fun ir => Some (rc_content (snd ir)))
+         (filter (fun ir => query_selects ps (qrec_of (fst ir) (snd ir))) (db_records d))).
+Proof. exact sql_semantics_is_query_selects. Qed.
+Print Assumptions C19_sql_semantics_is_query_selects.
+
+(** the listing SQL (GROUP BY/COUNT, LEFT JOIN Uploads, ORDER BY ... DESC,
+    LIMIT, and its optimised empty-query form) is [list_uploads_parts], given
+    that creation order is increasing (Day, Seq) (C20_ids_increase) *)
+Theorem C19_sql_listing_is_list_uploads : forall d ms ps subs limit,
+  wf_store d -> length ms = length d -> ups_increasing (t_uploads (tables_of d ms)) ->
+  parts_sql ps = Some subs ->
+  sql_list_uploads (tables_of d ms) subs limit = list_uploads_parts d ps limit.
+Proof. exact sql_listing_is_list_uploads. Qed.
+Print Assumptions C19_sql_listing_is_list_uploads.
+
+(** end to end, no assumed meaning of SQL left: query text -> parseQuery ->
+    part.sql -> relational evaluation -> Reader per row = the results of exactly
+    the stored records satisfying every term of the text, each once *)
+Theorem C19_sql_query_returns_exactly : forall d ms q ps,
+  wf_db d -> wf_store d -> length ms = length d -> parse_query q = QOk ps ->
+  exists subs ts, parts_sql ps = Some subs /\ query_terms q = Some ts
+    /\ Permutation (flat_map read_content (sql_query (tables_of d ms) subs))
+         (flat_map (fun ir => rec_results (snd ir)) (filter (rec_satisfies ts) (db_records d))).
+Proof. exact sql_query_returns_exactly. Qed.
+Print Assumptions C19_sql_query_returns_exactly.
+
+Theorem C19_sql_listing_counts_matching_records : forall d ms q ps limit,
+  wf_db d -> wf_store d -> length ms = length d -> ups_increasing (t_uploads (tables_of d ms)) ->
+  parse_query q = QOk ps ->
+  exists subs ts, parts_sql ps = Some subs /\ query_terms q = Some ts
+    /\ sql_list_uploads (tables_of d ms) subs limit
+       = take_limit limit (filter (fun ic => negb (snd ic =? 0)%N) (map (upload_count ts) (rev d))).
+Proof. exact sql_listing_counts_matching_records. Qed.
+Print Assumptions C19_sql_listing_counts_matching_records.
+
+(** non-vacuity of the hypotheses of the SQL theorems: two uploads through the
+    insert model; invariant, constraints, increasing (Day, Seq); a query with an
+    ordinary key, a range and the key "upload", evaluated relationally *)
+Example C19_example_sql :
+  let body1 := bs "goos: linux" ++ [c_lf] ++ bs "BenchmarkFoo-8 1 2 ns/op" ++ [c_lf] in
+  let body2 := bs "goos: plan9" ++ [c_lf] ++ bs "BenchmarkFoo-8 1 3 ns/op" ++ [c_lf]
+               ++ bs "BenchmarkBar/x=1-4 1 3 ns/op" ++ [c_lf] in
+  let u1 := mkUploadIn (bs "20260930.1") (bs "t1") [] [mkUfile (bs "a.txt") body1] in
+  let u2 := mkUploadIn (bs "20260930.2") (bs "t2") [] [mkUfile (bs "b.txt") body2] in
+  let d := fst (apply_upload (fst (apply_upload [] u1)) u2) in
+  let ms := [(bs "20260930", 1%N); (bs "20260930", 2%N)] in
+  wf_store d /\ length ms = length d /\ length (db_records d) = 3%nat
+  /\ constraints (tables_of d ms) /\ ups_increasing (t_uploads (tables_of d ms))
+  /\ (exists ps subs, parse_query (bs "name:Foo goos>a upload<20260930.2") = QOk ps
+        /\ parts_sql ps = Some subs /\ length subs = 3%nat
+        /\ map (fun c => match c with Some b => length (read_plain b) | None => 0%nat end)
+               (sql_query (tables_of d ms) subs) = [1%nat]
+        /\ sql_list_uploads (tables_of d ms) subs 0 = [(bs "20260930.1", 1%N)])
+  /\ sql_list_uploads (tables_of d ms) [] 1 = [(bs "20260930.2", 2%N)]
+  (* a file label that is also a name label: refused by the RecordLabels primary key *)
+  /\ (let u3 := mkUploadIn (bs "20260930.3") (bs "t3") []
+                  [mkUfile (bs "c.txt") (bs "name: x" ++ [c_lf] ++ bs "BenchmarkFoo 1 2 ns/op" ++ [c_lf])] in
+      process_upload u3 = inr FLabelCollision).
+Proof.
+  cbv zeta.
+  assert (W : wf_store (fst (apply_upload (fst (apply_upload []
+             (mkUploadIn (bs "20260930.1") (bs "t1") [] [mkUfile (bs "a.txt")
+                (bs "goos: linux" ++ [c_lf] ++ bs "BenchmarkFoo-8 1 2 ns/op" ++ [c_lf])])))
+             (mkUploadIn (bs "20260930.2") (bs "t2") [] [mkUfile (bs "b.txt")
+                (bs "goos: plan9" ++ [c_lf] ++ bs "BenchmarkFoo-8 1 3 ns/op" ++ [c_lf]
+                 ++ bs "BenchmarkBar/x=1-4 1 3 ns/op" ++ [c_lf])])))).
+  { apply apply_upload_keeps_wf_store; [apply apply_upload_keeps_wf_store; [exact wf_store_nil | intros []]|].
+    vm_compute. intros [H|[]]. discriminate H. }
+  split; [exact W|]. split; [reflexivity|]. split; [reflexivity|].
+  split; [apply tables_constraints; [exact W | reflexivity]|].
+  split; [vm_compute; repeat constructor|].
+  split; [eexists; eexists; split; [vm_compute; reflexivity|]; split; [vm_compute; reflexivity|];
+          repeat split; vm_compute; reflexivity|].
+  split; vm_compute; reflexivity.
+Qed.
+
+(** non-vacuity of the reader theorems: a text with a non-UTF-8 key byte
+    sequence, header and body labels; nothing ends in CR, names are non-empty *)
+Example C19_example_reader :
+  let text := bs "goos: linux" ++ [c_lf] ++ [x6b; xc3; x3a; x20; x76; c_lf]   (* "k\xC3: v" *)
+              ++ bs "BenchmarkFoo-8 1 2 ns/op" ++ [c_lf] in
+  length (read_plain text) = 1%nat
+  /\ Forall no_trailing_cr (read_plain text) /\ Forall named (read_plain text)
+  /\ (exists r, In r (read_plain text) /\ In ([x6b; xc3], [x76]) (r_labels r)).
+Proof.
+  cbv zeta. split; [reflexivity|].
+  match goal with |- context [read_plain ?t] => remember (read_plain t) as rs eqn:Ers end.
+  vm_compute in Ers. subst rs. split; [|split].
+  - constructor; [|constructor]. split; cbn [r_content r_labels].
+    + intros p E. apply (f_equal (@rev byte)) in E. rewrite rev_app_distr in E. cbn in E. discriminate E.
+    + intros k v [H|[H|[]]]; inversion H; subst; intros p E; apply (f_equal (@rev byte)) in E;
+        rewrite rev_app_distr in E; cbn in E; discriminate E.
+  - constructor; [|constructor]. intros name H. vm_compute in H. inversion H. discriminate.
+  - eexists. split; [left; reflexivity|]. right. left. reflexivity.
+Qed.
 
 (** non-vacuity of the well-formedness hypotheses *)
 Example C19_example_wf :
